@@ -189,6 +189,14 @@ def schemas() -> List[dict]:
         shape=FACT, src="distributive_factor_out.md '9y + 9y'")
     add("x + x -> (1 + 1) x", "DistributiveFactorOutRule", ("Add", V("x"), V("x")), opts={"constants": False}, shape=FACT,
         src="distributive_factor_out.test.json")
+    add("a x^n + b x is not factored (n != 1: unlike exponents)", "DistributiveFactorOutRule",
+        ("Add", T("a", "x", "n"), T("b", "x")), opts={"constants": False}, applies=False, exponent_not_one="n",
+        unless_common_number=True,
+        src="C08 statement 'factoring ax^n + bx^n'; distributive_factor_out.md 'combining like terms'")
+    add("a x + b y is not factored (unlike variables)", "DistributiveFactorOutRule",
+        ("Add", T("a", "x"), T("b", "y")), opts={"constants": False}, applies=False, distinct=("x", "y"),
+        unless_common_number=True,
+        src="C08 statement 'unlike variables'")
     add("c1 + c2 is not factored unless enabled", "DistributiveFactorOutRule", ("Add", C("c1"), C("c2")),
         opts={"constants": False}, applies=False, src="DistributiveFactorOutRule.__init__ comment")
     # multiplicative inverse
@@ -260,6 +268,8 @@ def run_schema(chk: Check, prog: Program, S: Summaries, sc: dict) -> None:
         if sc.get("distinct"):
             x, y = sc["distinct"]
             it.ident_diseq.add(frozenset([x, y]))
+        if sc.get("exponent_not_one"):
+            it.assume_sign(("sub", ("sym", f"c{p.names[sc['exponent_not_one']]}"), A.lit(1)), frozenset(["neg", "pos"]))
         if sc.get("same_exponent"):
             n, m = sc["same_exponent"]
             it.assume_sign(("sub", ("sym", f"c{p.names[n]}"), ("sym", f"c{p.names[m]}")), frozenset(["zero"]))
@@ -281,6 +291,11 @@ def run_schema(chk: Check, prog: Program, S: Summaries, sc: dict) -> None:
             continue
         tag, ch = p.value
         if not sc["applies"]:
+            if sc.get("unless_common_number") and tag != "no" and re.search(r"g\d+==1=false", p.cond):
+                # the coefficients share a numeric factor other than 1: pulling that number out is a documented use of the
+                # rule ('which common numeric factor is pulled out' is left open), not a like-terms claim
+                chk.info("C08.R3", f"C08.R3:{rname}:{sc['name']}:common-number", label, "common numeric factor pulled out")
+                continue
             chk.verdict(tag == "no", "C08.R3", f"C08.R3:{rname}:{sc['name']}", label,
                         "the rule reports applicable on a form documented as not applicable" if tag != "no" else "",
                         witness={"path": p.cond[-300:], "source": sc["src"]}, where=where)
